@@ -194,6 +194,15 @@ def check(ctx: Ctx) -> None:
         ctx.guard("R9.cov", DEF, coverage, ctx, d)
         ctx.guard("R9.dec", DEF, decode_equivalence, ctx, h, d1, d2)
     ctx.guard("R9.rt", DEF, round_trip, ctx, "all-defaults", lambda h: h.ev(X.minimal_src(), DEF))
+    r3 = ctx.guard("R9.rt", DEF, round_trip, ctx, "nested three deep, only the root listed", lambda h: h.ev(X.nested_src(), DEF))
+    if r3:
+        h3, d, d1, d2 = r3
+        names = list(d1.attrs["containers"]) if isinstance(d1.attrs.get("containers"), dict) else None
+        ctx.decide(names is not None and sorted(names) == ["CCSDSPacket", "INNER", "LEAF", "OUTER"] and
+                   all(n in d1.attrs.get("parameters", {}) for n in ("PA", "PB", "PC", "PD")),
+                   "R9.rt", f"{DEF}::XtcePacketDefinition::nested three deep, only the root listed::registered",
+                   "every nested container and its parameters are registered and written",
+                   f"containers after write+load: {names}; parameters: {sorted(d1.attrs.get('parameters', {}))}")
     ctx.guard("R9.ord", DEF, other_order, ctx)
 
 
